@@ -18,9 +18,17 @@ from hlib import *  # noqa: F401,F403
 
 ID = "C01"
 FEATURES = []
-FILES = ["errors.rs", "types.rs", "engine/facts.rs", "expression.rs"]
+import enginecore as _ec
+FILES = _ec.FILES
 FUNCTIONS = ["Operator::evaluate", "Value::to_number", "Value::as_string_ref", "evaluate_expression", "find_operator",
-             "apply_operator", "value_to_number", "is_integer_value", "Facts::get", "Facts::get_nested"]
+             "apply_operator", "value_to_number", "is_integer_value", "Facts::get", "Facts::get_nested",
+             "RustRuleEngine::execute_with_callback", "RustRuleEngine::evaluate_conditions",
+             "RustRuleEngine::evaluate_single_condition", "RustRuleEngine::execute_action", "RustRuleEngine::is_retracted"]
+REPLAY_DEPS = ""
+TREES = ["L", "!L", "L&L", "L|L", "L&(L|L)", "!(L&L)", "(L|L)&!L", "!(L|(L&L))"]
+FIELDS = ["x", "y", "missing", "obj.n"]
+CMP = ["Equal", "NotEqual", "GreaterThan", "GreaterThanOrEqual", "LessThan", "LessThanOrEqual"]
+FACT_INTS = [-2, 0, 1, 3]
 EXPR_INTS = [-3, 0, 2, 7]
 SHAPES = ["a + b * c", "a * b + c", "a - b - c", "a - b + c", "a * b * c", "a + b", "a - b * c - d", "a / b", "a % b", "a / b / c",
           "a * b / c", "a + 2 * b", "10 - a - b"]
@@ -33,8 +41,8 @@ TIERS = {
     # mode "expr" (arithmetic expression evaluator over candidate operands) is implemented below but NOT part of
     # any tier: the evaluator computes in f64 and z3's float theory answered unknown after 600 s even for
     # three operands from a 4-value candidate set. It is therefore not claimed.
-    "quick": [{"mode": "table"}, {"mode": "ints"}],
-    "thorough": [{"mode": "table"}, {"mode": "ints"}],
+    "quick": [{"mode": "table"}, {"mode": "ints"}, {"mode": "engine", "trees": 5}],
+    "thorough": [{"mode": "table"}, {"mode": "ints"}, {"mode": "engine", "trees": 8}],
 }
 ASSUMPTIONS = [
     "operands from candidate sets: Integer %s, Number %s, String %s, Boolean, Null, Array [Integer 1, String 'a', Null]" % (INTS, FLOATS, STRS),
@@ -167,7 +175,7 @@ def ref_eval(shape, env):
     return r
 
 
-def run(mode, shapes=0, witness=False):
+def run(mode, shapes=0, trees=0, witness=False):
     h = Harness(FILES, cap=4, loop_bound=6, rec_bound=4)
     ip = h.ip
     vi = {n: i for i, (n, _) in enumerate(ip.enums["Value"])}
@@ -213,6 +221,147 @@ def run(mode, shapes=0, witness=False):
                 with ip.under(exact):
                     h.require(zbool(got) == want, "C01: %s on integers differs from integer ordering" % o)
         h.cover(a.v > b.v, "a > b")
+    elif mode == "engine":
+        # the REAL engine decides whether one rule fires; its condition is a symbolic tree
+        oi_ = oi
+        li = {n: i for i, (n, _) in enumerate(ip.enums["LogicalOperator"])}
+        ai = {n: i for i, (n, _) in enumerate(ip.enums["ActionType"])}
+        # facts: x, y integers from candidates or absent; obj = {n: int}
+        h.let("facts", h.call("Facts::new", []))
+        fr = h.ref("facts")
+        fv = {}
+        for name in ("x", "y"):
+            pres = h.bool("has_" + name)
+            i, v = sym_value(h, ip, vi, "val_" + name, [("int", k) for k in FACT_INTS])
+            fv[name] = (pres, i)
+            with ip.under(pres):
+                ip.call("Facts::set", [fr, S(name), v])
+        ni, nv = sym_value(h, ip, vi, "val_obj_n", [("int", k) for k in FACT_INTS])
+        fv["obj.n"] = (True, ni)
+        ip.call("Facts::set", [fr, S("obj"), En("Value", vi["Object"], {vi["Object"]: [Mp([[True, S("n"), nv]])]})])
+        fv["missing"] = (False, z3.IntVal(0))
+        leaves = []
+
+        def leaf(idx):
+            fi = h.int("leaf%d_field" % idx, 0, len(FIELDS) - 1).v
+            op = h.int("leaf%d_op" % idx, 0, len(CMP) - 1).v
+            rk = h.int("leaf%d_rhs_kind" % idx, 0, 3).v      # 0 int literal, 1 field reference (string naming a fact), 2 null, 3 string naming nothing
+            rint = h.int("leaf%d_rhs_int" % idx, 0, len(FACT_INTS) - 1).v
+            rref = h.int("leaf%d_rhs_ref" % idx, 0, 1).v       # x or y
+            fs = S(FIELDS[-1])
+            for j in range(len(FIELDS) - 2, -1, -1):
+                fs = ite(fi == j, S(FIELDS[j]), fs)
+            opt_ = z3.IntVal(oi_[CMP[-1]])
+            for j in range(len(CMP) - 2, -1, -1):
+                opt_ = z3.If(op == j, oi_[CMP[j]], opt_)
+            lit = mk(ip, vi, ("int", FACT_INTS[-1]))
+            for j in range(len(FACT_INTS) - 2, -1, -1):
+                lit = ite(rint == j, mk(ip, vi, ("int", FACT_INTS[j])), lit)
+            refv = ite(rref == 0, mk(ip, vi, ("str", "x")), mk(ip, vi, ("str", "y")))
+            rhs = ite(rk == 0, lit, ite(rk == 1, refv, ite(rk == 2, mk(ip, vi, ("null", None)), mk(ip, vi, ("str", "zzz")))))
+            c = h.call("Condition::new", [fs, En("Operator", opt_, {}), rhs])
+            # reference truth of the leaf ------------------------------------------------
+            def fact(name):       # (present, candidate index)
+                return fv[name]
+            lp, lidx = False, z3.IntVal(0)
+            for j, f_ in enumerate(FIELDS):
+                p_, i_ = fact(f_)
+                lp = bor(lp, band(fi == j, p_))
+                lidx = z3.If(fi == j, i_, lidx)
+            # rhs value: kind 0 -> int; 1 -> referenced fact if present else the string itself; 2 -> null; 3 -> string
+            rp_x, ri_x = fact("x")
+            rp_y, ri_y = fact("y")
+            ref_present = ite(rref == 0, rp_x, rp_y)
+            ref_idx = z3.If(rref == 0, ri_x, ri_y)
+            r_is_int = bor(rk == 0, band(rk == 1, ref_present))
+            r_idx = z3.If(rk == 0, rint, ref_idx)
+            r_is_null = rk == 2
+            r_is_str = bor(rk == 3, band(rk == 1, bnot(ref_present)))
+
+            def ival(idx_):
+                e = z3.IntVal(FACT_INTS[-1])
+                for j in range(len(FACT_INTS) - 2, -1, -1):
+                    e = z3.If(idx_ == j, FACT_INTS[j], e)
+                return e
+            lv_, rv_ = ival(lidx), ival(r_idx)
+            both_int = band(lp, r_is_int)
+            eq = bor(band(both_int, lv_ == rv_), band(bnot(lp), r_is_null))          # missing reads as null; null == null; the strings used here are never "null"
+            ordr = {"GreaterThan": lv_ > rv_, "GreaterThanOrEqual": lv_ >= rv_, "LessThan": lv_ < rv_, "LessThanOrEqual": lv_ <= rv_}
+            truth = False
+            for j, o in enumerate(CMP):
+                if o == "Equal":
+                    t_ = eq
+                elif o == "NotEqual":
+                    t_ = bnot(eq)
+                else:
+                    t_ = band(both_int, ordr[o])     # ordering is false when either side is not numeric (null, non-numeric string)
+                truth = bor(truth, band(op == j, t_))
+            return h.call("ConditionGroup::single", [c]), truth
+
+        def parse_tree(txt):
+            """tiny recursive-descent over the shape strings; returns (ConditionGroup value, truth)"""
+            pos = [0]
+            cnt = [0]
+
+            def atom():
+                ch = txt[pos[0]]
+                if ch == "!":
+                    pos[0] += 1
+                    v, t_ = atom()
+                    return h.call("ConditionGroup::not", [v]), bnot(t_)
+                if ch == "(":
+                    pos[0] += 1
+                    v, t_ = expr()
+                    pos[0] += 1
+                    return v, t_
+                pos[0] += 1
+                cnt[0] += 1
+                return leaf(len(leaves) + cnt[0])
+
+            def expr():
+                v, t_ = atom()
+                while pos[0] < len(txt) and txt[pos[0]] in "&|":
+                    o = txt[pos[0]]
+                    pos[0] += 1
+                    v2, t2 = atom()
+                    v = h.call("ConditionGroup::and" if o == "&" else "ConditionGroup::or", [v, v2])
+                    t_ = band(t_, t2) if o == "&" else bor(t_, t2)
+                return v, t_
+            r = expr()
+            leaves.extend(range(cnt[0]))
+            return r
+
+        shape = h.int("tree", 0, trees - 1).v
+        built = [parse_tree(t_) for t_ in TREES[:trees]]
+        cg, truth = built[-1]
+        for j in range(trees - 2, -1, -1):
+            cg = ite(shape == j, built[j][0], cg)
+            truth = ite(shape == j, built[j][1], truth)
+        act = En("ActionType", ai["Set"], {ai["Set"]: {"field": S("out"), "value": mk(ip, vi, ("int", 7))}})
+        rule = h.call("Rule::new", [S("r"), cg, Vc([act])])
+        h.let("kb", h.call("KnowledgeBase::new", [S("kb")]))
+        ip.call("KnowledgeBase::add_rule", [h.ref("kb"), rule])
+        cfg = St("EngineConfig", {"max_cycles": I(1, "usize"), "timeout": none(), "enable_stats": False, "debug_mode": False})
+        h.let("eng", h.call("RustRuleEngine::with_config", [h.get("kb"), cfg]))
+        fired = []
+
+        def cb(ip_, a_):
+            fired.append(ip_.g)
+            return V.UNIT
+        out = ip.deref(ip.call("RustRuleEngine::execute_with_callback", [h.ref("eng"), fr, V.PyFn(cb)]))
+        did = bor(*fired)
+        h.tag = "fires-iff"
+        h.require(ip.tag_eq(out, 0), "C01: execute returned an error on a typed-core condition")
+        h.require(zbool(did) == zbool(truth), "C01: the rule's actions ran although its condition is false, or did not run although it is true")
+        g = ip.deref(h.call("Facts::get", [h.get("facts"), S("out")]))
+        h.require(zbool(ip.tag_eq(g, 1)) == zbool(truth), "C01: the assignment was (not) stored although the condition is (not) true")
+        if g.pl.get(1):
+            v_ = ip.deref(g.pl[1][0])
+            if v_.pl.get(vi["Integer"]):
+                h.require(bor(bnot(truth), band(ip.tag_eq(v_, vi["Integer"]), ip.eq(v_.pl[vi["Integer"]][0], I(7)))), "C01: the assignment stored a value other than its right-hand side")
+        h.cover(band(truth, shape == min(2, trees - 1)), "a compound condition was true")
+        h.cover(bnot(truth), "a condition was false (the rule must not fire)")
+        res_extra = {"trees": TREES[:trees], "fields": FIELDS, "operators": CMP, "fact_values": FACT_INTS}
     elif mode == "expr":
         import itertools
         h.let("facts", h.call("Facts::new", []))
@@ -264,6 +413,8 @@ def decode(res, m):
         def show(v):
             return [v[0], (repr(v[1]) if v[0] == "num" else v[1])]
         return {"mode": "table", "operator": OPS[m["op"]], "left": show(vals[m["left"]]), "right": show(vals[m["right"]])}
+    if res["mode"] == "engine":
+        return {"mode": "engine", "model": {k: v for k, v in m.items()}, "trees": res["bounds"]["trees"]}
     if res["mode"] == "expr":
         return {"mode": "expr", "operands": {n: EXPR_INTS[m["sel_" + n]] for n in "abcd"}, "shapes": res["bounds"]["shapes"]}
     return {"mode": "ints", "a": m["a"], "b": m["b"]}
@@ -311,6 +462,8 @@ fn main() {
     if got != want { println!("REPRODUCED: %s gives {} but the documented meaning is {}", got, want); } else { println!("NOT-REPRODUCED"); }
 }
 """ % (t["operator"], rust_value(l), rust_value(r), str(want).lower(), t["operator"])
+    if t["mode"] == "engine":
+        return replay_engine(t)
     if t["mode"] == "expr":
         checks = []
         for shape in t["shapes"]:
@@ -355,9 +508,101 @@ fn main() {
 """ % (t["a"], t["b"])
 
 
+def replay_engine(t):
+    m = t["model"]
+    tree = t["trees"][m["tree"]]
+    # leaves are numbered in construction order over ALL trees; recover the numbering for the chosen tree
+    n = 0
+    first = {}
+    for ti, txt in enumerate(t["trees"]):
+        first[ti] = n
+        n += txt.count("L")
+    base = first[m["tree"]]
+    k = [0]
+
+    def leaf_src():
+        k[0] += 1
+        idx = base + k[0]
+        fld = FIELDS[m["leaf%d_field" % idx]]
+        op = CMP[m["leaf%d_op" % idx]]
+        rk = m["leaf%d_rhs_kind" % idx]
+        rhs = {0: "Value::Integer(%d)" % FACT_INTS[m["leaf%d_rhs_int" % idx]], 1: 'Value::String("%s".to_string())' % ("x" if m["leaf%d_rhs_ref" % idx] == 0 else "y"),
+               2: "Value::Null", 3: 'Value::String("zzz".to_string())'}[rk]
+        rust = 'ConditionGroup::single(Condition::new("%s".to_string(), Operator::%s, %s))' % (fld, op, rhs)
+        ref = 'leaf(&env, "%s", "%s", %d, %d, "%s")' % (fld, op, rk, FACT_INTS[m["leaf%d_rhs_int" % idx]], "x" if m["leaf%d_rhs_ref" % idx] == 0 else "y")
+        return rust, ref
+    pos = [0]
+
+    def atom():
+        ch = tree[pos[0]]
+        if ch == "!":
+            pos[0] += 1
+            a, b = atom()
+            return "ConditionGroup::not(%s)" % a, "!(%s)" % b
+        if ch == "(":
+            pos[0] += 1
+            a, b = expr()
+            pos[0] += 1
+            return a, "(%s)" % b
+        pos[0] += 1
+        return leaf_src()
+
+    def expr():
+        a, b = atom()
+        while pos[0] < len(tree) and tree[pos[0]] in "&|":
+            o = tree[pos[0]]
+            pos[0] += 1
+            a2, b2 = atom()
+            a = "ConditionGroup::%s(%s, %s)" % ("and" if o == "&" else "or", a, a2)
+            b = "(%s %s %s)" % (b, "&&" if o == "&" else "||", b2)
+        return a, b
+    cg, ref = expr()
+    sets = []
+    env = []
+    for name in ("x", "y"):
+        if m["has_" + name]:
+            sets.append('facts.set("%s", Value::Integer(%d));' % (name, FACT_INTS[m["val_" + name]]))
+            env.append('("%s", %d)' % (name, FACT_INTS[m["val_" + name]]))
+    sets.append('{ let mut o = HashMap::new(); o.insert("n".to_string(), Value::Integer(%d)); facts.set("obj", Value::Object(o)); }' % FACT_INTS[m["val_obj_n"]])
+    env.append('("obj.n", %d)' % FACT_INTS[m["val_obj_n"]])
+    return """
+use rust_rule_engine::engine::engine::{EngineConfig, RustRuleEngine};
+use rust_rule_engine::engine::facts::Facts;
+use rust_rule_engine::engine::knowledge_base::KnowledgeBase;
+use rust_rule_engine::engine::rule::{Condition, ConditionGroup, Rule};
+use rust_rule_engine::types::{ActionType, Operator, Value};
+use std::collections::HashMap;
+fn leaf(env: &Vec<(&str, i64)>, field: &str, op: &str, rk: i32, rint: i64, rref: &str) -> bool {
+    let l = env.iter().find(|e| e.0 == field).map(|e| e.1);
+    let r: Option<i64> = match rk { 0 => Some(rint), 1 => env.iter().find(|e| e.0 == rref).map(|e| e.1), _ => None };
+    let r_null = rk == 2;
+    let eq = match (l, r) { (Some(a), Some(b)) => a == b, (None, _) if r_null => true, _ => false };
+    match op { "Equal" => eq, "NotEqual" => !eq,
+        _ => match (l, r) { (Some(a), Some(b)) => match op { "GreaterThan" => a > b, "GreaterThanOrEqual" => a >= b, "LessThan" => a < b, _ => a <= b }, _ => false } }
+}
+fn main() {
+    let facts = Facts::new();
+    %s
+    let env: Vec<(&str, i64)> = vec![%s];
+    let kb = KnowledgeBase::new("kb");
+    kb.add_rule(Rule::new("r".to_string(), %s, vec![ActionType::Set { field: "out".to_string(), value: Value::Integer(7) }])).unwrap();
+    let mut eng = RustRuleEngine::with_config(kb, EngineConfig { max_cycles: 1, timeout: None, enable_stats: false, debug_mode: false });
+    let mut n = 0;
+    let res = eng.execute_with_callback(&facts, |_, _| n += 1);
+    let want = %s;
+    let mut bad: Vec<String> = Vec::new();
+    if res.is_err() { bad.push("execute error".into()); }
+    if (n == 1) != want { bad.push(format!("fired={} but the condition is {}", n, want)); }
+    if (facts.get("out") == Some(Value::Integer(7))) != want { bad.push("assignment effect differs".into()); }
+    if bad.is_empty() { println!("NOT-REPRODUCED"); } else { println!("REPRODUCED: {:?}", bad); }
+}
+""" % ("\n    ".join(sets), ", ".join(env), cg, ref)
+
+
 if __name__ == "__main__":
     import sys
-    r = run(sys.argv[1], int(sys.argv[2]) if len(sys.argv) > 2 else 0)
+    n_ = int(sys.argv[2]) if len(sys.argv) > 2 else 0
+    r = run(sys.argv[1], shapes=n_, trees=n_)
     print(r["status"], r["covers"], r["inconclusive"][:5], "wall", r["wall_s"], "decide", r["decide_wall_s"])
     for msg, m in r["violations"]:
         print("VIOLATION", msg, decode(r, m))
